@@ -46,6 +46,9 @@ def cases(tier):
         elif tier == 'thorough' and len(spec[T]) <= 5: cs.append(('star', T, 2, 2))
     if tier == 'thorough':
         for T in small: cs.append(('star', T, 2, 3))
+    for T in spec:
+        if len(spec[T]) <= 5 or tier == 'thorough' or T.endswith('file'): cs.append(('find', T))
+    for T in small: cs.append(('match', T))
     return cs
 
 # ------------------------------------------------------------------ oracle
@@ -80,7 +83,54 @@ def re_match(it, pattern, item, *a):
     raise OutsideSubset('re.match on a pattern that did not come from glob2re')
 
 # ------------------------------------------------------------------ runs
+def run_find(it, st, T):
+    """Finder.find hands do_find exactly the typed searches of unfold_search -- also for a typed Sid that is not a search
+    (an alias in its last segment still expands)"""
+    from .c07 import values
+    fm = it.module('spil.sid.read.finder'); Finder = fm.ns['Finder']
+    tools = it.module('spil.sid.read.tools')
+    vs = values(it, st, T)
+    s = it.concat(interleave('/', vs)); st.inputs['search'] = s
+    got = []
+    def do_find(it_, search_sids=None, as_sid=True, **k): got.append(list(search_sids)); return V.GenList([])
+    stub = V.PClass('StubFinder', [Finder], fm); stub.ns['do_find'] = PBuiltin(do_find, 'do_find')
+    name = 'C08:Finder.find'
+    try:
+        list(it.call(it.getattr(PObj(stub), 'find'), [s], {}))
+        want = it.call(tools.ns['unfold_search'], [s], {})
+    except Raised as e:
+        st.oblige(f'{name}:raises-nothing', False, ('C08',), info={'exception': V.exc_name(e)}); st.observed = {'raises': V.exc_name(e)}; return 'ok'
+    st.observed = {'searched': [it.getattr(x, 'uri') for x in (got[0] if got else [])]}
+    ok = len(got) == 1
+    if ok:
+        a, b = got[0], list(want)
+        ok = all(any(it.known_eq(x, y) for y in b) for x in a) and all(any(it.known_eq(x, y) for y in a) for x in b)
+    st.oblige(f'{name}:searches-exactly-the-unfolded-forms-also-for-a-typed-non-search-sid', ok, ('C08', 'C10'),
+              info={'searched': repr([it.getattr(x, 'uri') for x in (got[0] if got else [])])[:300], 'unfolded': repr([it.getattr(x, 'uri') for x in want])[:300]})
+    return 'ok'
+
+def run_match(it, st, T):
+    it.world.specs['spil.sid.read.finders.find_list:glob2re'] = spec_glob2re
+    it.module('re').ns['match'] = PBuiltin(re_match, 're.match')
+    from .c07 import values
+    vs = values(it, st, T); x, _ = C.mk_typed(it, st, T, tag='m')
+    for (k, _v), v in zip(list(x.attrs['_fields'].items), vs): pass
+    x.attrs['_fields'] = PDict(list(zip(C.keys_of(T), vs))); x.attrs['_string'] = it.concat(interleave('/', vs))
+    st.inputs['type'] = T; st.inputs['values'] = list(vs)
+    name = 'C08:TypedSid.match'
+    other = list(vs); other[-1] = '*'
+    try:
+        same = it.call(it.getattr(x, 'match'), [x.attrs['_string']], {})
+        star = it.call(it.getattr(x, 'match'), [it.concat(interleave('/', other))], {})
+    except Raised as e:
+        st.oblige(f'{name}:raises-nothing', False, ('C08',), info={'exception': V.exc_name(e), 'args': repr(e.exc.attrs.get('args'))[:120]}); st.observed = {'raises': V.exc_name(e)}; return 'ok'
+    st.oblige(f'{name}:a-sid-matches-itself-and-the-search-with-a-star-in-its-last-segment', same is True and star is True, ('C08',), info={'self': repr(same), 'star': repr(star)})
+    st.observed = {'same': same, 'star': star}
+    return 'ok'
+
 def run(it, st, case):
+    if case[0] == 'find': return run_find(it, st, case[1])
+    if case[0] == 'match': return run_match(it, st, case[1])
     if case[0] == 'glob2re': return run_glob2re(it, st, case[1])
     if case[0] == 'star': return run_star(it, st, case[1], case[2], case[3])
 
@@ -155,6 +205,23 @@ def run_star(it, st, T, nsearch, nlist):
 # ------------------------------------------------------------------ native side
 def crosscheck(case, conc, exp):
     if case[0] == 'glob2re': return {'status': 'agree', 'note': 'bounded part is executed natively already'}
+    if case[0] == 'find':
+        from spil.sid.read.finder import Finder
+        got = []
+        class Stub(Finder):
+            def do_find(self, search_sids, as_sid=True): got.append(list(search_sids)); return iter(())
+        try: list(Stub().find(conc['search'])); res = {'searched': [x.uri for x in got[0]]}
+        except BaseException as e: res = {'raises': type(e).__name__}
+        if 'searched' in res and 'searched' in exp and sorted(res['searched']) == sorted(exp['searched']): return {'status': 'agree'}
+        if res != exp: return {'status': 'diverged', 'input': conc, 'cpython': res, 'engine': exp}
+        return {'status': 'agree'}
+    if case[0] == 'match':
+        from .c03 import native_sid
+        try:
+            x = native_sid(conc['type'], conc['values']); res = {'same': x.match(x.string), 'star': x.match('/'.join(conc['values'][:-1] + ['*']))}
+        except BaseException as e: res = {'raises': type(e).__name__}
+        if res != exp: return {'status': 'diverged', 'input': conc, 'cpython': res, 'engine': exp}
+        return {'status': 'agree'}
     from spil import FindInList, Sid
     T = conc['type']
     try:
@@ -165,6 +232,23 @@ def crosscheck(case, conc, exp):
     return {'status': 'agree'}
 
 def replay(case, ob, inputs):
+    if case[0] == 'find':
+        from spil.sid.read.finder import Finder
+        from spil.sid.read.tools import unfold_search
+        C.clear_native_caches()
+        got = []
+        class Stub(Finder):
+            def do_find(self, search_sids, as_sid=True): got.append(list(search_sids)); return iter(())
+        s_ = inputs['search']
+        r = C.call_native(lambda: (list(Stub().find(s_)), sorted(x.uri for x in unfold_search(s_))))
+        ok = r[0] == 'ret' and got and sorted(x.uri for x in got[0]) == r[1][1]
+        return {'confirmed': not ok, 'call': f'Finder.find({s_!r}): searches handed to do_find', 'observed': repr(sorted(x.uri for x in got[0]) if got else r)[:300], 'expected': repr(r[1][1] if r[0] == 'ret' else None)[:300],
+                'reproducer': f"from spil import FindInList; list(FindInList([...]).find({s_!r}))  # an alias in the last segment is not expanded"}
+    if case[0] == 'match':
+        from .c03 import native_sid
+        x = native_sid(inputs['type'], inputs['values'])
+        r = C.call_native(lambda: (x.match(x.string), x.match('/'.join(inputs['values'][:-1] + ['*']))))
+        return {'confirmed': r != ('ret', (True, True)), 'call': f'{x.uri!r}.match(itself / star search)', 'observed': repr(r), 'expected': '(True, True)'}
     if case[0] == 'glob2re':
         from spil.sid.read.finders.find_list import glob2re
         p, s_ = inputs.get('pattern', ''), inputs.get('subject', '')
